@@ -123,7 +123,8 @@ def units(tier, seed):
         for b in range(nbf):
             out.append({"kind": "import", "sid": "table" if fam == "tables" else "list", "vocab": fam, "n": n, "block": b,
                         "nblocks": nbf, "name": f"import/family/{fam}<={n}#{b}/{nbf}"})
-    for cid in ("ctx_bq", "ctx_li", "ctx_bq_any", "ctx_alt", "ctx_grp", "ctx_gp", "ctx_bq_ga", "ctx_li_ga", "ctx_gp_ga"):
+    for cid in ("ctx_bq", "ctx_li", "ctx_bq_any", "ctx_alt", "ctx_grp", "ctx_gp", "ctx_bq_ga", "ctx_li_ga", "ctx_gp_ga",
+                "ctx_bq_eq", "ctx_li_eq"):
         out.append({"kind": "context", "sid": cid, "n": 6 if q else 7, "name": f"context/{cid}"})
     exp = [
         {"sid": "basic", "family": "blocks", "size": 6 if q else 7},
@@ -339,7 +340,9 @@ def export_scope(model, family, sid, size):
             "texts": ["a", "b c", " "],
             "marksets": _ms(model, [], [EM], [STRONG], [EM, STRONG], [("link", {"href": 'u?a=1&b="2"', "title": None})],
                             [("code", None)], [("link", {"href": "", "title": None})]),
-            "attrs": {"image": [{"src": "i.png"}, {"src": "x&y.png", "title": 'T"<'}, {"src": "", "title": ""}],
+            "attrs": {"image": [{"src": "i.png"}, {"src": "x&y.png", "title": 'T"<'}, {"src": "", "title": ""},
+                                # values that already LOOK like character references must come back verbatim
+                                {"src": "q?a=1&amp;b=2", "title": "&#38;&quot;"}],
                       "heading": [{"level": 3}]},
             "max_children": 3,
         }
